@@ -356,14 +356,80 @@ def _to_ops(case, rng=None, weave=False, pats=None):
     return case
 
 
+GOOD_PREFIXES = ["/v1", "/v2", "/api", "/api/", "/x", "/a", "/a/b", "/:t", "/", "//g"]
+OTHER_OPTS = ["timeout", "maxbytes", "priority", "signature"]
+
+
+def _eff_segs(prefixes, p):
+    """approximate segments of the prefix-joined path (for request generation only)"""
+    segs = [x for x in p.split("/") if x not in ("", ".")]
+    for g in prefixes:
+        segs = [x for x in g.split("/") if x not in ("", ".")] + segs
+    return segs
+
+
+def _mount_case(rng, tier):
+    """caller slices mounted several times through AddRoutes with different option lists"""
+    ms = rng.sample(METHODS, rng.choice([1, 2, 2, 3]))
+    pats, slices = [], []
+    for _ in range(rng.choice([1, 1, 2])):
+        sl = []
+        for _ in range(rng.choice([1, 1, 2, 3, 4])):
+            segs = _pattern(rng, pats)
+            pats.append(segs)
+            r = rng.random()
+            p = "/".join(segs) if r < 0.3 else ("/" + "/".join(segs) + ("/" if r > 0.9 else ""))
+            sl.append({"m": rng.choice(ms), "p": p})
+        slices.append(sl)
+    mounts, eff = [], []
+    free = list(GOOD_PREFIXES)
+    rng.shuffle(free)
+    for k in range(rng.randint(2, 4)):
+        si = rng.randrange(len(slices)) if k >= len(slices) else k
+        opts = []
+        npre = rng.choice([1, 1, 1, 2, 2, 3]) if rng.random() < 0.9 else 0
+        for _ in range(npre):
+            opts.append({"o": "prefix", "v": free.pop() if free and rng.random() < 0.85 else rng.choice(PREFIXES)})
+        for _ in range(rng.choice([0, 0, 1, 2])):
+            opts.insert(rng.randint(0, len(opts)), {"o": rng.choice(OTHER_OPTS)})
+        mt = {"slice": si, "opts": opts, "mw": rng.choice([0, 0, 0, 1, 2]), "single": rng.random() < 0.5}
+        mounts.append(mt)
+        for r in slices[si]:
+            eff.append((r["m"], _eff_segs([o["v"] for o in opts if o["o"] == "prefix"], r["p"])))
+    allpre = [o["v"] for mt in mounts for o in mt["opts"] if o["o"] == "prefix"]
+    reqs = []
+
+    def inst(segs):
+        return [rng.choice(LITS) if x.startswith(":") else x for x in segs]
+    for m, segs in eff:
+        reqs.append({"m": m, "p": "/" + "/".join(inst(segs))})
+        reqs.append({"m": rng.choice(ms), "p": "/" + "/".join(inst(segs))})
+    for sl in slices:                                    # the bare paths and prefix compositions nobody registered
+        for r in sl:
+            reqs.append({"m": r["m"], "p": "/" + "/".join(inst(_eff_segs([], r["p"])))})
+            for _ in range(3):
+                gs = [rng.choice(allpre) for _ in range(rng.randint(1, 3))] if allpre else []
+                reqs.append({"m": r["m"], "p": "/" + "/".join(inst(_eff_segs(gs, r["p"])))})
+    for _ in range(8):
+        m, segs = rng.choice(eff)
+        segs = inst(segs)
+        if segs and rng.random() < 0.6:
+            segs[rng.randrange(len(segs))] = rng.choice(LITS)
+        reqs.append({"m": rng.choice(ms + ["HEAD"]), "p": _dirty(rng, segs)})
+    reqs += _raw_reqs(rng, [e[1] for e in eff], ms, 3)
+    return {"kind": "engine", "via": "server" if rng.random() < 0.6 else "engine", "slices": slices, "mounts": mounts, "reqs": reqs}
+
+
 def generate(rng, tier, n):
     cases = []
     for _ in range(n):
         r = rng.random()
         if r < 0.12:
             cases.append(_tree_case(rng, tier))
-        elif r < 0.30:
+        elif r < 0.22:
             cases.append(_engine_case(rng, tier))
+        elif r < 0.34:
+            cases.append(_mount_case(rng, tier))
         else:
             c = _router_case(rng, tier)
             pats = c.pop("_pats")
@@ -435,6 +501,22 @@ def search(rng, problems):
     for gs in egroups:
         for via in ("engine", "server"):
             out.append({"kind": "engine", "via": via, "groups": gs, "reqs": ereqs})
+    # one slice mounted under /v1 and /v2 (and nested /x + /v2), with other options and middlewares
+    sl = [_r("GET", "/a/:id"), _r("POST", "b"), _r("GET", "/")]
+    mreqs = [{"m": m, "p": p} for m in ("GET", "POST") for p in
+             ["/v1/a/7", "/v2/a/7", "/v1/b", "/v2/b", "/v1", "/v2", "/a/7", "/b", "/", "/v2/v1/a/7", "/v1/v2/a/7", "/v2/v1/b",
+              "/v1/v1/a/7", "/x/v2/a/7", "/v2/x/a/7", "/x/v2/b", "/x/v2", "/v2/x/v1/a/7", "/x/a/7"]]
+    for via in ("server", "engine"):
+        for opts2 in ([{"o": "prefix", "v": "/v2"}], [{"o": "prefix", "v": "/v2"}, {"o": "prefix", "v": "/x"}],
+                      [{"o": "timeout"}, {"o": "prefix", "v": "/v2"}, {"o": "priority"}]):
+            for mw in (0, 2):
+                out.append({"kind": "engine", "via": via, "slices": [sl], "reqs": mreqs,
+                            "mounts": [{"slice": 0, "opts": [{"o": "prefix", "v": "/v1"}, {"o": "maxbytes"}], "mw": mw},
+                                       {"slice": 0, "opts": opts2, "mw": 0}]})
+                out.append({"kind": "engine", "via": via, "slices": [sl[:1], sl[1:2]], "reqs": mreqs,
+                            "mounts": [{"slice": 0, "opts": [{"o": "prefix", "v": "/v1"}], "mw": mw, "single": True},
+                                       {"slice": 0, "opts": opts2, "mw": 0, "single": True},
+                                       {"slice": 1, "opts": opts2 + [{"o": "signature"}], "mw": mw, "single": True}]})
     return out
 
 
@@ -453,6 +535,11 @@ def _norm(case):
     if case.get("kind") == "router" and "ops" not in case:
         return {"kind": "router", "nf": case.get("nf", False),
                 "ops": [dict(r, op="reg") for r in case.get("regs", [])] + [dict(r, op="req") for r in case.get("reqs", [])]}
+    if case.get("kind") == "engine" and "mounts" not in case:
+        return {"kind": "engine", "via": case.get("via", "engine"), "reqs": case.get("reqs", []),
+                "slices": [g["routes"] for g in case.get("groups", [])],
+                "mounts": [{"slice": i, "opts": [] if g.get("prefix") is None else [{"o": "prefix", "v": g["prefix"]}]}
+                           for i, g in enumerate(case.get("groups", []))]}
     return case
 
 
@@ -549,6 +636,8 @@ def _encode_router(case, obs):
 
 
 def _encode_engine(case, obs):
+    if len(obs.get("after", [])) != len(case["slices"]):
+        return "mkcase false false [] [1] [] [] [] [] None []"
     reqs, rows = [], []
     for rq, r in zip(case["reqs"], obs["res"]):
         if r.get("badreq"):
@@ -556,15 +645,22 @@ def _encode_engine(case, obs):
         p = _req_path(rq)
         reqs.append((rq["m"], p))
         rows.append(_row(p, dict(r, _raw=bool(rq.get("raw")))))
-    gs, i = [], 0
-    for g in case["groups"]:
-        rs = []
-        for r in g["routes"]:
-            rs.append(cpair(_m(r["m"]), _b(r["p"]), cnat(i)))
-            i += 1
-        gs.append(cpair("None" if g["prefix"] is None else "(Some %s)" % _b(g["prefix"]), clist(rs)))
-    eo = "(Some (mkeobs %s %s %s))" % (
-        cnat(ERR.get(obs["err"], 9)), clist([_b(p) for p in obs["paths"]]),
+    base, n = [], 0
+    for sl in case["slices"]:
+        base.append(n)
+        n += len(sl)
+    gs = []
+    for mt in case["mounts"]:
+        sl = case["slices"][mt["slice"]]
+        rs = [cpair(_m(r["m"]), _b(r["p"]), cnat(base[mt["slice"]] + k)) for k, r in enumerate(sl)]
+        gs.append(cpair(clist([_b(o["v"]) for o in mt["opts"] if o["o"] == "prefix"]), clist(rs)))
+
+    def mp(r):
+        return cpair(_m(r["m"]), _b(r["p"]))
+    eo = "(Some (mkeobs %s %s %s %s))" % (
+        cnat(ERR.get(obs["err"], 9)), clist([mp(r) for r in obs["routes"]]),
+        clist([cpair(clist([mp(r) for r in before]), clist([mp(r) for r in after]))
+               for before, after in zip(case["slices"], obs["after"])]),
         clist([cpair(_m(c["m"]), _b(c["p"]), cnat(ERR.get(c["err"], 9))) for c in obs["calls"]]))
     return "mkcase false false [] [] [] %s %s %s %s []" % (
         clist([cpair(_m(m), _b(p)) for m, p in reqs]), clist(rows), clist(gs), eo)
@@ -608,8 +704,18 @@ def bucket(case, obs):
     if case["kind"] == "engine":
         out.append("engine:via=" + case["via"])
         out.append("engine:bind=" + (obs["err"].split(":")[0] or "ok"))
-        if any(g["prefix"] is not None for g in case["groups"]):
+        npre = [sum(1 for o in mt["opts"] if o["o"] == "prefix") for mt in case["mounts"]]
+        if any(npre):
             out.append("engine:prefix")
+        if any(k >= 2 for k in npre):
+            out.append("engine:nested-prefix")
+        used = [mt["slice"] for mt in case["mounts"]]
+        if len(set(used)) < len(used):
+            out.append("engine:slice-mounted-twice")
+        if any(o["o"] != "prefix" for mt in case["mounts"] for o in mt["opts"]):
+            out.append("engine:other-options")
+        if any(mt.get("mw") for mt in case["mounts"]):
+            out.append("engine:with-middlewares")
     if case["kind"] in ("engine", "router"):
         for q, r in rows:
             if q.get("raw"):
@@ -685,7 +791,19 @@ def shrink(v):
     if case["kind"] == "engine":
         cands = [dict(case, reqs=[q]) for q in case["reqs"]] + [dict(case, reqs=[])]
         bad, obs = _spec_fails(cands)
-        return {"case": cands[bad[-1]], "obs": obs[bad[-1]]} if bad else v
+        if not bad:
+            return v
+        cur, cur_obs = cands[bad[0]], obs[bad[0]]
+        for _ in range(6):
+            cands = [dict(cur, mounts=cur["mounts"][:j] + cur["mounts"][j + 1:]) for j in range(len(cur["mounts"]))]
+            cands += [dict(cur, mounts=[dict(mt, opts=mt["opts"][:k] + mt["opts"][k + 1:]) if j == jj else mt
+                                       for jj, mt in enumerate(cur["mounts"])])
+                      for j, mt0 in enumerate(cur["mounts"]) for k in range(len(mt0["opts"])) if mt0["opts"][k]["o"] != "prefix"]
+            bad, obs = _spec_fails(cands)
+            if not bad:
+                break
+            cur, cur_obs = cands[bad[0]], obs[bad[0]]
+        return {"case": cur, "obs": cur_obs}
     if case["kind"] == "router":
         cur, cur_obs = case, v["obs"]
         # first: a prefix ending at a request (histories are judged step by step)
